@@ -60,8 +60,10 @@ class C13(object):
             'the map changes at least one token of the expression or the expression has >= 2 distinct '
             'names; one ambient case runs the book builders under in-situ wrappers' % BATCH)
     assumptions = ['CPython tokenize is the reference for what a token is',
-                   'renaming targets/replacements are identifier-shaped non-keywords']
-    required_counters = ('list_tokens.judged', 'lookup.judged', 'replace_token.judged', 'eval.judged',
+                   'renaming targets/replacements are identifier-shaped non-keywords',
+                   'the reduction caller removes all blanks from the rewritten equation: expressions with keyword '
+                   'operators or string literals (not valid in equation blocks anyway) are not fed to that sub-check']
+    required_counters = ('list_tokens.judged', 'lookup.judged', 'replace_token.judged', 'eval.judged', 'block_rename.judged', 'reduction_rename.judged',
                          'insitu.replace_token_from_lookup.post_evaluated')
 
     def n_cases(self, tier):
@@ -142,6 +144,12 @@ class C13(object):
                 if not _same(a, b):
                     rec.violate('replace_value', {'text': text, 'lookup': lk, 'result': res,
                                                   'orig': repr(a), 'renamed': repr(b)})
+            # --- the callers: Equation / EquationBlock renaming, also with Term objects shared between equations
+            if i % 5 == 0:
+                self.block_rename(rng, rec, lk, kind)
+            if i % 4 == 1 and '=' not in text and '#' not in text and names and \
+                    not (set(g['features']) & {'lag', 'keyword', 'string', 'attr'}):
+                self.reduction_rename(rng, rec, text, g, names)
             if changed or len(names) >= 2:
                 keys.append(chash([text, lk]))
             sh = kind + '|' + ','.join(g['features'][:3])
@@ -154,6 +162,68 @@ class C13(object):
                 'evals': case['n'], 'keys': keys, 'shape': 'batch', 'counters': rec.counters,
                 'violations': rec.violations, 'obs': first_obs, 'notes': shapes and {
                     'mapkind.' + k.split('|')[0]: v for k, v in _fold(shapes).items()}}
+
+    def block_rename(self, rng, rec, lk, kind):
+        """EquationBlock.ReplaceTokensFromLookup over two equations that were built from the SAME Term objects
+        (and one opaque expression): every term must be renamed exactly once."""
+        from sfc_models.equation import Equation, EquationBlock, Term
+        names = sorted(lk)[:3]
+        if not names:
+            return
+        pool = names + [n + '_x' for n in names[:1]]
+        shared = [Term(rng.choice(['', '-']) + n) for n in pool]
+        shared.append(Term(pool[0] + '*' + pool[-1]))
+        blob = '2*(%s - %s)' % (pool[0], pool[-1])
+        e1 = Equation('lhs1', 'd', [Term(blob, is_blob=True)] + shared)
+        e2 = Equation('lhs2', 'd', shared)
+        blk = EquationBlock()
+        blk.AddEquation(e1)
+        blk.AddEquation(e2)
+        before = {k: monitors.token_stream(blk[k].RHS()) for k in ('lhs1', 'lhs2')}
+        try:
+            blk.ReplaceTokensFromLookup(dict(lk))
+        except Exception as e:
+            rec.violate('block_rename_raised', {'lookup': lk, 'err': repr(e)})
+            return
+        rec.count('block_rename.judged')
+        import tokenize as _t
+        for k in ('lhs1', 'lhs2'):
+            exp = [(t, lk[v]) if (t == _t.NAME and v in lk) else (t, v) for t, v in before[k]]
+            got = monitors.token_stream(blk[k].RHS())
+            if [v for _, v in got] != [v for _, v in exp]:
+                rec.violate('block_rename_not_applied_exactly_once',
+                            {'equation': k, 'lookup': lk, 'map_kind': kind, 'before': [v for _, v in before[k]],
+                             'got': [v for _, v in got], 'expected': [v for _, v in exp]})
+                return
+
+    def reduction_rename(self, rng, rec, text, g, names):
+        """The caller inside equation reduction: an alias `a = target` must be substituted into a dependent
+        equation token by token (numbers such as 2.e5, strings and longer names untouched)."""
+        import tokenize as _t
+        from sfc_models.equation_parser import EquationParser
+        alias = rng.choice(names)
+        target = 'tgt_%d' % rng.randint(0, 9)
+        if target in names or alias in ('k', 't'):
+            return
+        block = '%s = %s\ndep_v = %s\n%s = 1.5' % (alias, target, text.strip(), target)
+        p = EquationParser()
+        try:
+            p.ParseString(block)
+            p.GenerateTokenList()
+            p.FindExactMatches()
+        except Exception:
+            rec.count('reduction_rename.skipped')
+            return
+        rec.count('reduction_rename.judged')
+        exp = [target if (k == 'NAME' and tkn == alias) else tkn for k, tkn in g['tokens'] if k != 'COMMENT']
+        try:
+            got = [v for _, v in monitors.token_stream(p.AllEquations['dep_v'])]
+        except Exception as e:
+            got = ['<untokenizable %r>' % (e,)]
+        if got != exp:
+            rec.violate('alias_substitution_in_reduction_not_hygienic',
+                        {'alias': alias, 'target': target, 'equation': text, 'after_reduction': p.AllEquations.get('dep_v'),
+                         'expected_tokens': exp[:40], 'got_tokens': got[:40]})
 
     def run_ambient(self, case):
         from vf import ambient
